@@ -4,7 +4,7 @@
 From Coq Require Import ZArith Reals Psatz Floats Bool List Lia.
 From Flocq Require Import Core BinarySingleNaN PrimFloat.
 From PB Require Import Proofs.TwoSumExact Model.Phase2 Model.PhaseOrd Model.PhaseDivmod Proofs.Floor Proofs.DayFrac Proofs.DayFrac3
-  Proofs.PhaseAdd Proofs.PhaseMore Proofs.DayFracTail Proofs.TwoProduct Proofs.PhaseMul Proofs.DivChain Proofs.PhaseArgmin Proofs.PhaseSort Proofs.PhaseRemainder.
+  Proofs.PhaseAdd Proofs.PhaseMore Proofs.DayFracTail Proofs.FoldHalf Proofs.DayFracFold Proofs.TwoProduct Proofs.PhaseMul Proofs.DivChain Proofs.PhaseArgmin Proofs.PhaseSort Proofs.PhaseRemainder.
 Open Scope R_scope.
 
 Lemma divmod_rem (p : ph) (d q : PrimFloat.float) (rem : ph) : op_divmod p d = Some (q, rem) -> rem_of p d q = Some rem.
@@ -37,7 +37,7 @@ Theorem rem_of_sound (p : ph) (d fd : PrimFloat.float) (k : Z) :
   exists rem, rem_of p d fd = Some rem /\ p_imag rem = false /\ fin (p_int rem) /\ fin (p_frac rem) /\
     (exists kr : Z, R_of (p_int rem) = IZR kr) /\
     Rabs (V rem - (V p - R_of d * R_of fd)) <= bpow radix2 (-51) /\
-    Rabs (R_of (p_frac rem)) <= / 2 + bpow radix2 (-50).
+    Rabs (R_of (p_frac rem)) <= / 2.
 Proof.
   intros Hp Fi Ff Ek Kk Bf Fd Ffd Hd0 Bd Hf0 Bfd Bprod. pose proof p50_half as P50.
   rewrite (rem_of_unfold p d fd Hp). destruct R_zero as [E0 F0].
@@ -53,7 +53,7 @@ Proof.
     assert (IZR kc < IZR (2 ^ 51 - 2) + 1) by (rewrite minus_IZR; lra).
     assert (- (IZR (2 ^ 51 - 2) + 1) < IZR kc) by (rewrite minus_IZR; lra).
     rewrite <- plus_IZR in *. rewrite <- opp_IZR in *. apply lt_IZR in H. apply lt_IZR in H0. lia. }
-  pose proof (phase_sub_sound_wide (p_int p) (p_frac p) c f k kc Fi Ff Fc Ffc Ek Ekc Kk Kc Bf Hfc) as HS.
+  pose proof (phase_sub_sound_wide (p_int p) (p_frac p) c f k kc Fi Ff Fc Ffc Ek Ekc Kk Kc Bf (half_slack _ Hfc)) as HS.
   destruct (phase_sub (p_int p) (p_frac p) c f) as [d' f']. destruct HS as (Fd' & Ff' & Hint & Hsub & Hnorm).
   eexists. split; [reflexivity|]. cbn [p_imag p_int p_frac]. split; [reflexivity|]. split; [exact Fd'|]. split; [exact Ff'|].
   split; [exact Hint|]. split; [|exact Hnorm].
@@ -74,7 +74,7 @@ Theorem divmod_identity (p : ph) (d q : PrimFloat.float) (rem : ph) (k : Z) :
   (R_of q = 0 \/ bpow radix2 (-900) <= Rabs (R_of q)) -> Rabs (R_of q) <= bpow radix2 400 ->
   Rabs (R_of d * R_of q) <= IZR (2 ^ 51 - 3) ->
   p_imag rem = false /\ fin (p_int rem) /\ fin (p_frac rem) /\ (exists kr : Z, R_of (p_int rem) = IZR kr) /\
-  Rabs (R_of q * R_of d + V rem - V p) <= bpow radix2 (-51) /\ Rabs (R_of (p_frac rem)) <= / 2 + bpow radix2 (-50).
+  Rabs (R_of q * R_of d + V rem - V p) <= bpow radix2 (-51) /\ Rabs (R_of (p_frac rem)) <= / 2.
 Proof.
   intros H Hp Fi Ff Ek Kk Bf Fd Fq Hd0 Bd Hq0 Bq Bprod.
   destruct (rem_of_sound p d q k Hp Fi Ff Ek Kk Bf Fd Fq Hd0 Bd Hq0 Bq Bprod) as (rem' & E & A1 & A2 & A3 & A4 & A5 & A6).
